@@ -62,7 +62,8 @@ def gen_spec(rng):
     if k == 'pair_str':
         return k, rng.choice([['0.1', 0.9], [0.1, '0.9']]), 'BPairStr'
     if k == 'triple':
-        return k, [lo, hi, 0.99], 'BPair %s %s' % (qlit(lo), qlit(hi))
+        extra = [rng.choice([0.99, 0.5, r(0.0, 1.0), lo / 2])] + ([r(0.0, 1.0)] if rng.random() < 0.3 else [])
+        return k, [lo, hi] + extra, 'BPair %s %s' % (qlit(lo), qlit(hi))      # only the first two entries are used (documented, with a warning)
     raise AssertionError(k)
 
 
